@@ -1,0 +1,15 @@
+//go:build !verif
+
+package state
+
+import (
+	"0chain.net/chaincore/state"
+	"0chain.net/core/datastore"
+	"github.com/0chain/common/core/util"
+)
+
+func verifObsGet(*StateContext, datastore.Key, util.MPTSerializable, bool) {}
+func verifObsInsert(*StateContext, datastore.Key, util.MPTSerializable)    {}
+func verifObsDelete(*StateContext, datastore.Key)                          {}
+func verifObsTransfer(*StateContext, *state.Transfer)                      {}
+func verifObsSignedTransfer(*StateContext, *state.SignedTransfer)          {}
